@@ -130,6 +130,7 @@ type Cluster struct {
 	arrivals   map[int]int  // command id -> how many times a node processed it (any outcome)
 	connOf     map[net.Conn]int
 	fault      string                // injected fault for the next plain data request: er | cb | ac
+	faultNode  int                   // -1: at any node, else only at this node
 	stalled    map[int]chan struct{} // node -> release channel: data requests to it are held unprocessed
 	held       int                   // data requests currently held by a stalled node
 	parkedConn net.Conn              // the connection whose CLUSTER SLOTS request is parked (kept open when its node goes down)
@@ -292,6 +293,7 @@ func (d *Cluster) applyLocked(ev MigEv) bool {
 			return false
 		}
 		d.fault = ev.Key
+		d.faultNode = ev.Slot - 1 // Slot = node+1 restricts the fault to that node, 0 = any node
 		d.trace = append(d.trace, "F:"+ev.Key)
 	case "u": // node Dst comes back (same address)
 		if ev.Dst < 0 || ev.Dst >= d.n || !d.down[ev.Dst] {
@@ -704,8 +706,10 @@ func (d *Cluster) handle(node int, st *clConnState, args []string) string {
 		d.fireSchedLocked()
 		asking := st.asking
 		st.asking = false
-		flt := d.fault
-		d.fault = ""
+		flt := ""
+		if d.fault != "" && (d.faultNode < 0 || d.faultNode == node) {
+			flt, d.fault = d.fault, ""
+		}
 		if flt == "er" || flt == "cb" {
 			d.trace = append(d.trace, fmt.Sprintf("q:%d:%d:%d:e", node, id, clB2i(asking)))
 			d.nodeLog[node] = append(d.nodeLog[node], fmt.Sprintf("%d:e", id))
